@@ -3,7 +3,10 @@ package metachain
 import (
 	"fmt"
 	"math"
+	"runtime"
 	"strings"
+	"sync"
+	"sync/atomic"
 	"testing"
 
 	"github.com/ElrondNetwork/elrond-go/data/block"
@@ -304,6 +307,111 @@ func TestVerifC34_EpochLength(t *testing.T) {
 		if ntCase {
 			c.NonTrivial(trace.String())
 			c.Sample("%s", trace.String())
+		}
+	})
+}
+
+const verifC34ConcRule = "concurrent class: the trigger is one object shared by the go routines that create and process metachain headers (metaProcessor.CreateNewHeader/CreateBlock from the consensus subround, metaProcessor.ProcessBlock from the consensus message handler and from the sync loop; all call Update(header round, header nonce) and all trigger state sits behind mutTrigger). Per case: RoundsPerEpoch 1..12, minimum 1..RoundsPerEpoch, 10-16 consecutive epochs; for each epoch the rounds up to the boundary are fed sequentially (optionally a forced start inside the epoch), then 8 (half of the time 2..8) go routines released together by a spin barrier call Update for the first round that fulfils the start condition (all the same round, or half of them the next round), optionally with readers of Epoch()/IsEpochStart(). Oracle at quiescence only (no timing): Epoch() == previous + 1 and IsEpochStart(); then the start block is committed. Non-trivial = >= 4 updaters on the same round; distinct by configuration and go routine counts"
+
+// TestVerifC34_ConcurrentUpdate: "the metachain epoch increases by exactly one at each epoch start" also when the
+// Update calls for the first round of the new epoch arrive from several go routines at once.
+func TestVerifC34_ConcurrentUpdate(t *testing.T) {
+	kit.Run(t, "C34", kit.Budget{Quick: 3000, Thorough: 20000}, verifC34ConcRule, func(rt *rapid.T, c *kit.Case) {
+		rpe := uint64(rapid.IntRange(1, 12).Draw(rt, "roundsPerEpoch"))
+		min := uint64(rapid.IntRange(1, int(rpe)).Draw(rt, "minRounds"))
+		epoch := uint32(rapid.IntRange(0, 100).Draw(rt, "epoch"))
+		start := rapid.Uint64Range(0, 1000).Draw(rt, "startRound")
+		trig, err := verifC34NewTrigger(rpe, min, epoch, start)
+		if err != nil {
+			rt.Fatalf("fixture: NewEpochStartTrigger: %v", err)
+		}
+		nEpochs := rapid.IntRange(10, 16).Draw(rt, "epochs")
+		nonce := uint64(10)
+		round := start
+		desc := &strings.Builder{}
+		fmt.Fprintf(desc, "RoundsPerEpoch=%d MinRoundsBetweenEpochs=%d epoch=%d epochStartRound=%d;", rpe, min, epoch, start)
+		nt := false
+		for e := 0; e < nEpochs; e++ {
+			// sequential part: rounds inside the epoch, no start expected
+			boundary := start + rpe + 1 // first round of the next epoch without forcing
+			if rapid.IntRange(0, 3).Draw(rt, "forced") == 0 {
+				// a forced start at start+min..start+rpe (accepted; effective as requested)
+				boundary = start + min + rapid.Uint64Range(0, rpe-min).Draw(rt, "forcedOffset")
+				trig.ForceEpochStart(boundary)
+				fmt.Fprintf(desc, " force(%d)", boundary)
+			}
+			for round+1 < boundary {
+				round++
+				nonce++
+				trig.Update(round, nonce)
+			}
+			if trig.IsEpochStart() || trig.Epoch() != epoch {
+				rt.Fatalf("fixture: epoch %d isEpochStart %v before the boundary round %d (%s)", trig.Epoch(), trig.IsEpochStart(), boundary, desc.String())
+			}
+			round = boundary
+			nonce++
+			updaters := 8
+			if rapid.Bool().Draw(rt, "fewerUpdaters") {
+				updaters = rapid.IntRange(2, 8).Draw(rt, "updaters")
+			}
+			readers := rapid.IntRange(0, 2).Draw(rt, "readers")
+			mixedRounds := rapid.IntRange(0, 4).Draw(rt, "mixedRounds") == 0
+			if updaters >= 4 && !mixedRounds {
+				nt = true
+			}
+			fmt.Fprintf(desc, " %dxUpdate(%d) r%d m%v", updaters, round, readers, mixedRounds)
+			total := int32(updaters + readers)
+			ready := int32(0)
+			wg := sync.WaitGroup{}
+			wg.Add(int(total))
+			barrier := func() {
+				atomic.AddInt32(&ready, 1)
+				for spins := 0; atomic.LoadInt32(&ready) < total; spins++ {
+					if spins > 2000 {
+						runtime.Gosched()
+					}
+				}
+			}
+			for i := 0; i < updaters; i++ {
+				r := round
+				if mixedRounds && i%2 == 1 {
+					r = round + 1
+				}
+				go func(r uint64) {
+					defer wg.Done()
+					barrier()
+					trig.Update(r, nonce)
+				}(r)
+			}
+			for i := 0; i < readers; i++ {
+				go func() {
+					defer wg.Done()
+					barrier()
+					_ = trig.Epoch()
+					_ = trig.IsEpochStart()
+					_ = trig.EpochStartRound()
+				}()
+			}
+			wg.Wait()
+			c.Class(fmt.Sprintf("concurrent-start:%d-updaters", updaters))
+			if got := trig.Epoch(); got != epoch+1 {
+				c.Violation("C34:concurrent-update:epoch-step", "after %d concurrent Update(%d, %d) calls for the first round of the new epoch Epoch() went %d -> %d (want +1)\n%s",
+					updaters, round, nonce, epoch, got, desc.String())
+			}
+			if !trig.IsEpochStart() {
+				c.Violation("C34:concurrent-update:no-start", "after %d concurrent Update(%d, %d) calls IsEpochStart() is false\n%s", updaters, round, nonce, desc.String())
+			}
+			epoch++
+			if mixedRounds {
+				round++
+			}
+			// the start-of-epoch block of the current round is committed
+			trig.SetProcessed(verifC34StartBlock(trig.Epoch(), round, nonce), &block.Body{})
+			start = round
+		}
+		if nt {
+			c.NonTrivial(desc.String())
+			c.Sample("%s", desc.String())
 		}
 	})
 }
